@@ -85,6 +85,26 @@ PROPS = {
                  "placeholder strings longer than 2 characters"],
         assumptions=["the transient fields are those assigned outside __init__ (the same six the C10 ast scan finds)"],
     ),
+    "C12": dict(
+        modules=["harness.c12"],
+        level="other",
+        explanation="Bounded symbolic execution of the real session code: (1) _receive_request/_receive_bytes over a "
+                    "connection whose recv() returns chunks of symbolic sizes, body bytes symbolic; (2) two iterations "
+                    "of the real _handle_message_loop on one connection with the certificate shape, parser outcome, "
+                    "identity, engine outcome, response size and client maximum symbolic in the first and a good "
+                    "request in the second; (3) the real request decoder and real engine behind the real loop on a "
+                    "valid request with one byte at a symbolic position replaced by a symbolic value. Oracles: exactly "
+                    "one answer accepted by the independent TTLV walker/envelope check, right error class, engine "
+                    "reached only after a complete decode, store untouched by an undecodable request, no exception "
+                    "other than ConnectionClosed leaves the loop.",
+        stubs=["FakeConnection (stream + chunk sizes + peer-certificate token)", "FakeCert (duck-typed x509 certificate)",
+               "DER loader -> FakeCert", "binascii.hexlify -> b'' (DEBUG text)", "NullLogger", "FakeSession",
+               "scripted RequestMessage.read / engine.process_request (one-response conditions only)"],
+        outside=["more than one corrupted byte per message; unstructured random buffers",
+                 "recv() returning None (non-blocking sockets are not used by the server)",
+                 "TLS handshake and socket shutdown in run()", "bodies longer than the framing bound"],
+        assumptions=["a socket's recv(n) returns between 1 and n bytes, or b'' once the peer has closed"],
+    ),
     "C15": dict(
         modules=["harness.c15"],
         level="other",
@@ -142,6 +162,17 @@ PROPS = {
 }
 
 CLAIMS = {
+    "C12": dict(
+        text="For every chunking of the stream (4 arbitrary chunk sizes) and every body up to the bound the framed "
+             "request is exactly header + advertised bytes with nothing over-consumed; for every combination of "
+             "certificate shape, parser outcome, identity, engine outcome and client maximum the session sends exactly "
+             "one well-formed answer of the right class, reaches the engine only after certificate check, full decode "
+             "and authentication, replaces an oversize answer, and serves the next good request; a valid request with "
+             "any single byte replaced by any value is answered once, well-formed, and executes nothing unless it "
+             "decoded completely.",
+        note="Environment stubbed (connection, certificate objects, DER loader); single-byte corruptions of 2 (quick) "
+             "/ 5 (thorough) seed requests.",
+    ),
     "C02": dict(
         text="For every primitive value inside the bounds the bytes written by the real code are identical to those "
              "of an independent TTLV encoder (header, mandated length, two's-complement big-endian value, zero "
